@@ -49,6 +49,27 @@ impl InlineCache {
     }
   }
 
+  /// The number of property slots in this cache
+  pub fn property_slots(&self) -> usize {
+    self.property.len()
+  }
+
+  /// The number of invoke slots in this cache
+  pub fn invoke_slots(&self) -> usize {
+    self.invoke.len()
+  }
+
+  /// Grow this cache to hold at least the provided number of slots
+  /// keeping the existing entries
+  pub fn grow(&mut self, property_slots: usize, invoke_slots: usize) {
+    if property_slots > self.property.len() {
+      self.property.resize(property_slots, None);
+    }
+    if invoke_slots > self.invoke.len() {
+      self.invoke.resize(invoke_slots, None);
+    }
+  }
+
   /// Attempt to retrieve the property cache at a given slot
   /// for the provided class
   pub fn get_property_cache(&self, inline_slot: usize, class: ObjRef<Class>) -> Option<usize> {
@@ -177,6 +198,15 @@ pub struct CacheIdEmitter {
 }
 
 impl CacheIdEmitter {
+  /// Create an emitter that continues after the provided number of
+  /// already emitted property and invoke ids
+  pub fn continuing(property_count: usize, invoke_count: usize) -> Self {
+    Self {
+      property: IdEmitter::starting_at(property_count),
+      invoke: IdEmitter::starting_at(invoke_count),
+    }
+  }
+
   /// Emit a new property id
   pub fn emit_property(&mut self) -> u32 {
     if self.property_count() > u32::MAX as usize {
